@@ -314,3 +314,50 @@ package decor
 //@   requires 0 <= s.Current && s.Current <= s.Total
 //@   ensures  calledWith("Percentage", 0) == s.Total && calledWith("Percentage", 1) == s.Current
 //@            && calledWith("Percentage", 2) == 100
+
+// ---------------------------------------------------------------------------------------
+// remaining helpers (C02)
+
+// medianWindow implements sort.Interface over its three samples; the index preconditions are
+// those sort.Sort guarantees to its Interface (assumed contract of package sort)
+//@ func (*medianWindow).Less
+//@   props    C02 C20
+//@   requires s != nil && 0 <= i && i < 3 && 0 <= j && j < 3
+//@ func (*medianWindow).Swap
+//@   props    C02 C20
+//@   requires s != nil && 0 <= i && i < 3 && 0 <= j && j < 3
+//@ func (*medianWindow).Set
+//@   props    C02 C20
+//@   requires s != nil
+//@   loop 1   invariant 0 <= i && i <= 3
+//@   loop 1   decreases 3 - i
+
+//@ func Counters
+//@   props    C02 C20
+//@ func Counters$1
+//@   props    C02 C20
+//@   ensures  result != nil
+//@ func Total
+//@   props    C02 C20
+//@ func Total$1
+//@   props    C02 C20
+//@   ensures  result != nil
+//@ func Current
+//@   props    C02 C20
+//@ func Current$1
+//@   props    C02 C20
+//@   ensures  result != nil
+//@ func InvertedCurrent
+//@   props    C02 C20
+//@ func InvertedCurrent$1
+//@   props    C02 C20
+//@   ensures  result != nil
+
+//@ func OnCompleteMetaOrOnAbortMeta
+//@   props    C02 C07
+//@   requires fn != nil
+
+//@ func Spinner$1
+//@   props    C02 C07
+//@   wraps    uint
+//@   requires len(frames) > 0
